@@ -15,7 +15,7 @@ class C11(C10):
     pool = "c11"
     n_generated = {"quick": 6, "thorough": 24}
     with_inverse = True
-    feature_overrides = {"renamed_select": False, "renamed_enum": False, "inverse": True}
+    feature_overrides = {"renamed_select": False, "renamed_enum": False, "optional_elems": False, "inverse": True}
     rule = ("plan = schema with INVERSE attributes (seeded: 1..4 per schema, inherited ones, SET/BAG and single valued, over entity-valued and "
             "aggregate-of-entity attributes) x conforming population x seeded history of loadInstance calls x delivery schedule. Oracle after every load "
             "of a simple instance x: for every inverse attribute of x (own or inherited) declared `FOR a` over entity E, the ids it holds are exactly the "
